@@ -794,6 +794,12 @@ func (r *gRun) oracles() []string {
 				{fltAPS, "a", "AfterPropertiesSet"}, {fltInit, "i", "Init"}, {fltAfter, "f", "PostProcessAfterInitialization"},
 				{fltEarly, "e", "GetEarlyBeanReference"}, {fltRun, "r", "Run"}} {
 				if n.flt&fw.bit != 0 && seen[fmt.Sprintf("%s%d", fw.ev, i)] && !r.toleratedTarget(i) {
+					for _, e := range r.events {
+						if e[0] == 'r' { // C13: runners only after every eagerly created component finished initialization
+							add("c13-after-failed-init", "runner event %s although %s of node %d returned an error (the component never finished initialization)", e, fw.what, i)
+							break
+						}
+					}
 					add("c09-fault-swallowed", "%s of node %d returned an error, yet Run returned nil", fw.what, i)
 				}
 			}
